@@ -523,6 +523,12 @@ class World:
                 settle(want)
             elif not isinstance(e, IndexError):
                 self.failf("refine:list.pop-out-of-range-no-IndexError", repr(e))
+        elif f == "remove" and op.get("xk"):
+            k2 = ("sec", "sym", "prx", "bi")[op["xk"] % 4]
+            other = self.obj(k2, a % self.n(k2))
+            e = expect_exc(lambda: lst.remove(other), ValueError, "remove")
+            if not isinstance(e, ValueError):
+                self.failf("refine:list.remove-nonmember-no-ValueError", "%s node: %r" % (k2, e))
         elif f == "remove":
             if not ms:
                 raise Skip()
@@ -660,6 +666,20 @@ class World:
                 self.failf("refine:list.slice-returns-owning-list", repr(type(got)))
             else:
                 same(list(got), mobjs[sl], "getslice")
+        elif f in ("index", "count", "contains") and op.get("xk"):
+            # an object that is no module at all: a non-member like any other
+            k2 = ("sec", "sym", "prx", "bi")[op["xk"] % 4]
+            other = self.obj(k2, a % self.n(k2)) if op["xk"] % 5 else "not a node"
+            if f == "count" and lst.count(other) != 0:
+                self.failf("refine:list.count", "foreign object counted")
+            elif f == "contains" and (other in lst) is not False:
+                self.failf("refine:list.contains", "foreign object reported as member")
+            elif f == "index":
+                try:
+                    lst.index(other)
+                    self.failf("refine:list.index", "foreign object found")
+                except ValueError:
+                    pass
         elif f in ("index", "count", "contains"):
             if not ms:
                 raise Skip()
